@@ -1103,6 +1103,327 @@ def build_complexes(rng, thorough):
 
 
 # --------------------------------------------------------------------------
+# class audit 2/3: --ligand under the OTHER options / entry points and in the legal LAYOUTS of a complex.
+# Expected values come from the input: the MOL2-derived (charge, radius) of every ligand atom by name, the declared
+# total formal charge of the ligand, and the same run WITHOUT --ligand for every other atom.
+
+LAT_FFS = ["AMBER", "CHARMM", "PARSE", "SWANSON", "TYL06", "PEOEPB"]
+# (names, types, bonds, total formal charge by the documented rule)
+LAT_LIGANDS = {
+    "ethanol": (CX_CLASH, ET_TYPES, ET_BONDS, 0),
+    "acetate": (["O1", "C1", "O2", "C2", "H1", "H2", "H3"], AC_TYPES, AC_BONDS, -1),
+    "acetate-ar": (["OA", "CA", "OB", "CB", "HA", "HB", "HC"], AC_TYPES, [(0, 1, "ar"), (1, 2, "ar"), (1, 3, "1"), (3, 4, "1"), (3, 5, "1"), (3, 6, "1")], -1),
+    "methylammonium": (["N1", "C1", "HN1", "HN2", "HN3", "H1", "H2", "H3"], ["N.4", "C.3", "H", "H", "H", "H", "H", "H"],
+                       [(0, 1, "1"), (0, 2, "1"), (0, 3, "1"), (0, 4, "1"), (1, 5, "1"), (1, 6, "1"), (1, 7, "1")], 1),
+    "ammonium-n3": (["N1", "C1", "HN1", "HN2", "HN3", "H1", "H2", "H3"], ["N.3", "C.3", "H", "H", "H", "H", "H", "H"],
+                    [(0, 1, "1"), (0, 2, "1"), (0, 3, "1"), (0, 4, "1"), (1, 5, "1"), (1, 6, "1"), (1, 7, "1")], 1),
+    # O=P(O-)(O-)OC: by the documented phosphate rule only the first single-bonded O.3 of the P atom's bond list is -1
+    "methylphosphate": (["P1", "O1", "O2", "O3", "O4", "C1", "H1", "H2", "H3"], ["P.3", "O.2", "O.3", "O.3", "O.3", "C.3", "H", "H", "H"],
+                        [(0, 1, "2"), (0, 2, "1"), (0, 3, "1"), (0, 4, "1"), (4, 5, "1"), (5, 6, "1"), (5, 7, "1"), (5, 8, "1")], -1),
+    "nitromethane": (["C1", "N1", "O1", "O2", "H1", "H2", "H3"], ["C.3", "N.pl3", "O.2", "O.2", "H", "H", "H"],
+                     [(0, 1, "1"), (1, 2, "2"), (1, 3, "2"), (0, 4, "1"), (0, 5, "1"), (0, 6, "1")], None),
+    "pyridine": (["N1", "C2", "C3", "C4", "C5", "C6", "H2", "H3", "H4", "H5", "H6"], ["N.ar"] + ["C.ar"] * 5 + ["H"] * 5,
+                 [(0, 1, "ar"), (1, 2, "ar"), (2, 3, "ar"), (3, 4, "ar"), (4, 5, "ar"), (5, 0, "ar")] + [(k, k + 5, "1") for k in range(1, 6)], 0),
+}
+
+
+def prot_chain(chain, nres, shift=0.0, source="A"):
+    out = []
+    for l in open(core.REPO / "tests" / "data" / "1QBS.pdb"):
+        if l.startswith("ATOM") and l[21] == source and int(l[22:26]) <= nres:
+            x = float(l[30:38]) + shift
+            out.append(l[:21] + chain + l[22:30] + f"{x:8.3f}" + l[38:])
+    return out
+
+
+def gen_lattice_case(rng, k):
+    """One complex = ligand + MOL2 spelling + layout of the PDB + option set + entry point, all drawn from the seed."""
+    lname = rng.choice(list(LAT_LIGANDS))
+    names, types, bonds, total = LAT_LIGANDS[lname]
+    if rng.random() < 0.2:
+        g = gen_organic(rng, maxn=9)
+        lname, names, types, bonds, total = "organic", default_names(g.types), g.types, g.bonds, None
+    n = len(names)
+    pdb_res = rng.choice(["LIG", "LIG", "DMP", "L01"])
+    m2_res = pdb_res if rng.random() < 0.7 else rng.choice(["UNK", "<1>"])
+    # --- MOL2 text: the harness's plain writer or another legal spelling of the same records
+    gt = gt_of(types, bonds, names, rng, resname=m2_res)
+    style = rng.choice(["plain", "respelled", "crlf-comments", "two-molecules"])
+    if style == "plain":
+        mol2 = mol2_text(types, bonds, names, resname=m2_res, resseq=400)
+    elif style == "respelled":
+        mol2 = render_text(rng, gt, trailer=TRAILERS[0])
+    elif style == "crlf-comments":
+        mol2 = render_text(rng, gt, style={"eol": "\r\n", "seps": [" ", "\t"]}, header=["# ligand for pdb2pqr", "#", "@<TRIPOS>MOLECULE", "lig", f"{n} {len(bonds)} 1", "SMALL", "USER_CHARGES"], trailer=TRAILERS[0])
+    else:  # a second @<TRIPOS>MOLECULE block after the SUBSTRUCTURE section of the first
+        other = mol2_text(["C.3", "Cl", "H", "H", "H"], [(0, 1, "1"), (0, 2, "1"), (0, 3, "1"), (0, 4, "1")], ["CX", "CLX", "HX1", "HX2", "HX3"], resname="OTH")
+        mol2 = mol2_text(types, bonds, names, resname=m2_res, resseq=400) + other
+    # --- PDB layout
+    two_chains = rng.random() < 0.4
+    lig_chain = rng.choice(["L", "L", "A", " ", "B" if two_chains else "L"])
+    position = rng.choice(["after", "after", "before", "between" if two_chains else "after"])
+    copies = 2 if rng.random() < 0.25 else 1
+    order = list(range(n))
+    if rng.random() < 0.5:
+        rng.shuffle(order)
+    case_names = rng.random() < 0.06
+    interleave = rng.random() < 0.2
+    ter_after_prot = rng.random() < 0.7
+    other_lig = rng.random() < 0.35
+    nwat = rng.randint(0, 2)
+    wat_names = rng.choice([["O"], ["O", "H1", "H2"]])
+    wat_chain = rng.choice(["W", "A", lig_chain if lig_chain != " " else "W"])
+    serial = [0]
+
+    def het(nm, rn, ch, rs, x, y, z):
+        serial[0] += 1
+        return het_line(4000 + serial[0], nm, rn, ch, rs, x, y, z)
+
+    def water(i):
+        return [het(nm, "HOH", wat_chain, 600 + i, 60.0 + 5.0 * i + 0.8 * j, 10.0 + 0.6 * j, 10.0) for j, nm in enumerate(wat_names)]
+
+    waters = [water(i) for i in range(nwat)]
+    lig_resseqs = [400, 401][:copies]
+    lig_chains = [lig_chain, lig_chain if rng.random() < 0.5 else "M"][:copies]
+    lig_blocks = []
+    for c in range(copies):
+        o = 40.0 + 35.0 * c
+        recs = [het(names[i].lower() if case_names else names[i], pdb_res, lig_chains[c], lig_resseqs[c], o + 1.4 * i, o + 0.9 * (i % 2), o + 0.5 * (i % 3)) for i in order]
+        if interleave and waters and c == 0 and len(recs) > 2:
+            cut = rng.randrange(1, len(recs))
+            recs = recs[:cut] + waters.pop(0) + recs[cut:]
+        lig_blocks += recs
+    oth = []
+    if other_lig:  # a second, different ligand for which no MOL2 file is given; may share atom names with the first
+        onames = rng.choice([["CX", "CLX"], names[: max(1, n // 2)], ["C1", "O1", "ZZ"]])
+        heavy = {nm for nm, t in zip(names, types) if t != "H"}
+        if m2_res != pdb_res and heavy <= set(onames) <= set(names):
+            onames = ["CX", "CLX"]  # under a placeholder name a heavy-atom copy of the ligand IS the ligand (hydrogens optional): ambiguous input
+        oth = [het(nm, "OTH", rng.choice(["L", "X", lig_chain if lig_chain != " " else "X"]), 450, 90.0 + 1.4 * i, 40.0, 40.0 + 0.5 * i) for i, nm in enumerate(onames)]
+    pa = prot_chain("A", 4)
+    pb = prot_chain("B", 3, shift=60.0) if two_chains else []
+    ter = ["TER\n"] if ter_after_prot else []
+    rest = oth + [l for w in waters for l in w]
+    if rng.random() < 0.5:
+        rest = rest[::-1] if not oth else [l for w in waters for l in w] + oth
+    if position == "before":
+        lines = lig_blocks + pa + ter + pb + (ter if pb else []) + rest
+    elif position == "between":
+        lines = pa + ter + lig_blocks + pb + ter + rest
+    else:
+        lines = pa + ter + pb + (ter if pb else []) + (rest + lig_blocks if rng.random() < 0.3 else lig_blocks + rest)
+    pdb = "".join(lines) + "END\n"
+    # --- options / entry point
+    ff = rng.choice(LAT_FFS)
+    opts = [f"--ff={ff}"]
+    for o, pr in (("--noopt", 0.3), ("--nodebump", 0.3), ("--drop-water", 0.3), ("--keep-chain", 0.5), ("--whitespace", 0.3), ("--include-header", 0.15)):
+        if rng.random() < pr:
+            opts.append(o)
+    if rng.random() < 0.3:
+        opts.append(f"--ffout={rng.choice(LAT_FFS[:5])}")
+    files = []
+    if rng.random() < 0.25:
+        files.append("--pdb-output")
+    if rng.random() < 0.25:
+        files.append("--apbs-input")
+    propka = rng.random() < 0.25
+    if propka:
+        opts += ["--titration-state-method=propka", f"--with-ph={rng.choice(['7', '4.5', '9.0'])}"]
+    if ff == "PARSE" and rng.random() < 0.3:
+        opts.append(rng.choice(["--neutraln", "--neutralc"]))
+    entry = rng.choice(["main_driver", "main_driver", "run_pdb2pqr", "main"]) if not propka else "main_driver"
+    layout = {"ligand": lname, "mol2_style": style, "mol2_resname": m2_res, "position": position, "lig_chain": lig_chain, "copies": copies,
+              "reordered": order != list(range(n)), "lowercase_names": case_names, "interleaved_with_water": interleave and nwat > 0,
+              "ter_after_protein": ter_after_prot, "other_ligand": other_lig, "two_chains": two_chains, "waters": nwat, "water_chain": wat_chain}
+    return {"tag": f"lattice-{k}", "pdb": pdb, "mol2": mol2, "opts": opts, "files": files, "propka_stub": propka, "entry": entry,
+            "lig_resseqs": lig_resseqs, "lig_names": list(names), "lig_types": list(types), "expected_total": total,
+            "lig_written": not case_names, "layout": layout}
+
+
+def fixed_lattice_cases():
+    """layouts every run must see whatever the seed: ligand bound twice (other chain / same chain), ligand records
+    interrupted by a water (MOL2 residue name = the PDB's, and a placeholder: finding C16-F6), ligand before the protein
+    under the protein's chain ID, HETATM order reversed"""
+    names, types, bonds, total = LAT_LIGANDS["acetate"]
+    pa = prot_chain("A", 4)
+    out = []
+
+    def lig(chain, rs, o, order=None):
+        return [het_line(5000 + 20 * (rs - 400) + k, names[i], "LIG", chain, rs, o + 1.4 * i, o + 0.9 * (i % 2), o + 0.5 * (i % 3))
+                for k, i in enumerate(order or range(len(names)))]
+
+    wat = [het_line(7000, "O", "HOH", "W", 600, 60.0, 10.0, 10.0)]
+
+    def add(tag, lines, m2res, resseqs, opts):
+        out.append({"tag": "fixed-" + tag, "pdb": "".join(lines) + "END\n", "mol2": mol2_text(types, bonds, names, resname=m2res, resseq=400),
+                    "opts": opts, "files": [], "propka_stub": False, "entry": "main_driver", "lig_resseqs": resseqs, "lig_names": list(names),
+                    "lig_types": list(types), "expected_total": total, "lig_written": True, "layout": {"fixed": tag}})
+
+    add("two-copies-two-chains", pa + ["TER\n"] + lig("L", 400, 40.0) + lig("M", 401, 75.0), "LIG", [400, 401], ["--ff=AMBER", "--keep-chain"])
+    add("two-copies-one-chain", pa + ["TER\n"] + lig("L", 400, 40.0) + lig("L", 401, 75.0), "LIG", [400, 401], ["--ff=PARSE"])
+    add("two-copies-placeholder", pa + ["TER\n"] + lig("L", 400, 40.0) + wat + lig("M", 401, 75.0), "UNK", [400, 401], ["--ff=CHARMM", "--keep-chain", "--whitespace"])
+    l0 = lig("L", 400, 40.0)
+    add("noncontiguous-named", pa + ["TER\n"] + l0[:3] + wat + l0[3:], "LIG", [400], ["--ff=AMBER", "--keep-chain"])
+    add("noncontiguous-placeholder", pa + ["TER\n"] + l0[:3] + wat + l0[3:], "UNK", [400], ["--ff=AMBER", "--keep-chain"])
+    add("before-protein-same-chain-reversed", lig("A", 400, 40.0, order=list(range(len(names)))[::-1]) + pa + ["TER\n"] + wat, "LIG", [400], ["--ff=SWANSON", "--noopt", "--nodebump"])
+    return out
+
+
+def pqr_rows(path):
+    """atom rows of a PQR whatever the options (chain column present or not, --whitespace): fields from both ends"""
+    rows = []
+    for l in path.read_text().splitlines():
+        if l.startswith(("ATOM", "HETATM")):
+            w = l.split()
+            if len(w) < 9:
+                rows.append({"unparsed": l})
+                continue
+            if len(w) not in (10, 11):  # fields run together (e.g. 4-letter residue names of --ffout): not this property's matter
+                rows.append({"rec": w[0], "name": None, "resn": None, "chain": "", "resseq": w[-6], "q": w[-2], "r": w[-1], "raw": " ".join(w[:1] + w[2:])})
+                continue
+            rows.append({"rec": w[0], "name": w[2], "resn": w[3], "chain": w[4] if len(w) == 11 else "", "resseq": w[-6], "q": w[-2], "r": w[-1],
+                         "raw": " ".join(w[:1] + w[2:])})
+    return rows
+
+
+def lattice_run(d, case, with_ligand):
+    from pdb2pqr import main as pmain
+
+    tag = case["tag"] + ("" if with_ligand else "_base")
+    pdb, out, mol2 = d / f"{tag}.pdb", d / f"{tag}.pqr", d / f"{case['tag']}.mol2"
+    pdb.write_text(case["pdb"])
+    mol2.write_bytes(case["mol2"].encode("utf-8"))
+    if out.exists():
+        out.unlink()
+    argv = list(case["opts"]) + ["--log-level=CRITICAL"]
+    for f in case["files"]:
+        argv.append(f"{f}={d / (tag + ('.out.pdb' if f == '--pdb-output' else '.in'))}")
+    if with_ligand:
+        argv.append(f"--ligand={mol2}")
+    argv += [str(pdb), str(out)]
+    _quiet()
+    logging.disable(logging.CRITICAL)
+    saved_propka, saved_argv = pmain.run_propka, list(os.sys.argv)
+    if case["propka_stub"]:
+        pmain.run_propka = lambda a, b: ([], "stub pKa table (harness)")
+    try:
+        try:
+            if case["entry"] == "run_pdb2pqr":
+                pmain.run_pdb2pqr(argv)
+            elif case["entry"] == "main":
+                os.sys.argv = ["pdb2pqr"] + argv
+                pmain.main()
+            else:
+                pmain.main_driver(pmain.build_main_parser().parse_args(argv))
+            status = "ok"
+        except SystemExit as e:
+            status = "ok" if not e.code else f"SystemExit:{e.code}"
+        except Exception as e:  # noqa
+            status = f"{type(e).__name__}:{str(e.__cause__ or e)[:200]}"
+    finally:
+        pmain.run_propka = saved_propka
+        os.sys.argv = saved_argv
+        logging.disable(logging.NOTSET)
+        _quiet()
+    return status, (pqr_rows(out) if status == "ok" and out.exists() else [])
+
+
+def not_written_cause(case, lig, rs):
+    """Diagnosis from the INPUT only: is this the layout of finding C16-F6 (MOL2 residue name occurs nowhere in the PDB
+    and the ligand's records are not contiguous, with heavy atoms on both sides of the gap)?"""
+    recs = [l for l in case["pdb"].splitlines() if l.startswith(("ATOM", "HETATM"))]
+    mine = [k for k, l in enumerate(recs) if l[22:26].strip() == str(rs)]
+    pdb_names = {l[17:20].strip() for l in recs}
+    placeholder = not ({a.res_name for a in lig.atoms.values()} & pdb_names)
+    if not mine or not placeholder or mine[-1] - mine[0] + 1 == len(mine):
+        return "none"
+    heavy = {nm for nm, a in lig.atoms.items() if a.type != "H"}
+    frags, cur = [], []
+    for k in range(mine[0], mine[-1] + 1):
+        if k in mine:
+            cur.append(recs[k][12:16].strip())
+        elif cur:
+            frags.append(cur)
+            cur = []
+    frags.append(cur)
+    return "placeholder-name-with-noncontiguous-records" if not any(heavy <= set(f) for f in frags) else "none"
+
+
+def oracle_lattice(ctx, d, case):
+    lig = impl_read(case["mol2"])
+    lig.assign_parameters()
+    ligp = {nm: (a.charge, a.radius) for nm, a in lig.atoms.items()}
+    fsum = sum(a.formal_charge for a in lig.atoms.values())
+    st0, base = lattice_run(d, case, False)
+    st1, rows = lattice_run(d, case, True)
+    rec = {k_: case[k_] for k_ in ("tag", "pdb", "mol2", "opts", "files", "propka_stub", "entry", "lig_resseqs", "lig_names", "lig_types",
+                                   "expected_total", "lig_written", "layout")}
+    rec = {"lattice": rec, "status": st1}
+    ctx.evaluated(("lattice", core.sha([case["pdb"], case["mol2"], case["opts"], case["entry"]])), True)
+    ctx.count("lattice:entry-" + case["entry"])
+    for o in case["opts"] + case["files"]:
+        ctx.count("lattice:opt" + o.split("=")[0] + ("=" + o.split("=")[1] if o.startswith(("--ff=", "--ffout=")) else ""))
+    for k_, v in case["layout"].items():
+        if k_ not in ("mol2_resname", "waters"):
+            ctx.count(f"lattice:layout-{k_}={v}")
+    findings = []
+    if sorted(ligp) != sorted(case["lig_names"]) or [lig.atoms[nm].type for nm in case["lig_names"]] != [canon_type(t) for t in case["lig_types"]]:
+        findings.append(({"site": READ_SITE, "condition": "ligand-file-read-as-another-molecule"}, f"atoms read {sorted(ligp)[:6]} vs written {sorted(case['lig_names'])[:6]}"))
+    if case["expected_total"] is not None and abs(fsum - case["expected_total"]) > 1e-9:
+        findings.append(({"site": "Mol2Atom.formal_charge", "condition": "total-formal-charge-differs-from-documented-rule"},
+                         f"{case['layout']['ligand']}: sum of formal charges {fsum}, by the rule {case['expected_total']}"))
+    if st0 != "ok":
+        ctx.fail({"site": "main.main_driver", "condition": "baseline-without-ligand-fails"}, f"run without --ligand failed: {st0} (options {case['opts']})", rec)
+        return
+    ligrs = {str(r_) for r_ in case["lig_resseqs"]}
+    if st1 != "ok":
+        findings.append(({"site": "main.main_driver", "condition": "complex-run-fails", "error": st1.split(":")[0]}, f"run with --ligand failed: {st1}"))
+    else:
+        if any("unparsed" in r_ for r_ in rows + base):
+            findings.append(({"site": "main.print_pqr", "condition": "pqr-row-unreadable"}, str([r_ for r_ in rows + base if "unparsed" in r_][:1])))
+        rows = [r_ for r_ in rows if "unparsed" not in r_]
+        base = [r_ for r_ in base if "unparsed" not in r_]
+        # every row outside the ligand: identical text (serial number aside) to the run without --ligand
+        other = sorted(r_["raw"] for r_ in rows if r_["resseq"] not in ligrs)
+        other0 = sorted(r_["raw"] for r_ in base if r_["resseq"] not in ligrs)
+        if other != other0:
+            ident = lambda x: " ".join(x.split()[:-2])  # noqa: E731  (everything but charge and radius)
+            k0, k1 = [ident(x) for x in other0], [ident(x) for x in other]
+            cond = "non-ligand-atom-lost-by-ligand-option" if set(k0) - set(k1) else "atom-written-twice-other" if sorted(set(k1)) == sorted(set(k0)) and len(k1) != len(k0) \
+                else "non-ligand-atom-added-by-ligand-option" if set(k1) - set(k0) else "non-ligand-atom-parameters-changed-by-ligand-option"
+            diff = [x for x in other if x not in other0][:2] + ["without --ligand: " + x for x in other0 if x not in other][:2]
+            findings.append(({"site": "main.non_trivial", "condition": cond}, f"rows outside the ligand differ from the run without --ligand: {diff}"))
+        for rs in sorted(ligrs):
+            mine = [r_ for r_ in rows if r_["resseq"] == rs]
+            if not case["lig_written"]:
+                continue
+            tot = 0.0
+            for nm in case["lig_names"]:
+                hit = [r_ for r_ in mine if r_["name"] == nm]
+                if len(hit) == 0:
+                    findings.append(({"site": LIG_SITE, "condition": "ligand-atom-not-written", "cause": not_written_cause(case, lig, rs)},
+                                     f"ligand copy {rs}: atom {nm} written 0 times"))
+                elif len(hit) > 1:
+                    findings.append(({"site": "main.non_trivial", "condition": "atom-written-twice-other", "ligand_atom": True}, f"ligand copy {rs}: atom {nm} written {len(hit)} times"))
+                elif abs(float(hit[0]["q"]) - ligp[nm][0]) > 6e-5 or abs(float(hit[0]["r"]) - ligp[nm][1]) > 6e-5:
+                    findings.append(({"site": LIG_SITE, "condition": "ligand-atom-wrong-parameters"}, f"ligand copy {rs}: {nm} has {hit[0]['q']},{hit[0]['r']}; MOL2-derived {ligp[nm]}"))
+                else:
+                    tot += float(hit[0]["q"])
+            extra = [r_["name"] for r_ in mine if r_["name"] not in case["lig_names"]]
+            if extra:
+                findings.append(({"site": LIG_SITE, "condition": "ligand-residue-has-unknown-atoms"}, f"ligand copy {rs}: rows {extra[:4]} are not atoms of the MOL2 file"))
+            if not any(f_[0]["site"] == LIG_SITE for f_ in findings) and abs(tot - fsum) > 5e-5 * len(case["lig_names"]) + 1e-9:
+                findings.append(({"site": LIG_SITE, "condition": "ligand-charges-do-not-sum-to-formal-charge"}, f"ligand copy {rs}: sum {tot} vs formal {fsum}"))
+    done = set()
+    for sig, txt in findings:
+        h = core.sha(sig)
+        if h not in done:
+            done.add(h)
+            ctx.fail(sig, f"{txt} | options {case['opts']} entry {case['entry']} layout {case['layout']}", rec)
+    case["observed"] = {"status": st1, "findings": [t for _, t in findings][:3]}
+
+
+# --------------------------------------------------------------------------
 # radius tables: every ordered (primary, secondary) pair, call histories, immutability of the tables
 
 RADII_SITE = "Mol2Molecule.assign_radii"
@@ -1796,6 +2117,12 @@ def run(ctx):
         "through main_driver; distinct by PDB text. Loop cases: residue lists (ligand, waters, hetero groups sharing atom "
         "names, protein residues, force-field hits on any of them) through the source text of the ligand loop, judged by "
         "the generator's own labelling of the ligand residue; non-trivial when unambiguous, >= 2 residues, one the ligand. "
+        "Lattice cases: --ligand with a random subset of the other options (six force fields, --ffout, --noopt, --nodebump, --drop-water, --keep-chain, "
+        "--whitespace, --include-header, --pdb-output, --apbs-input, stubbed propka + --with-ph, --neutraln/c), through main_driver / run_pdb2pqr / main(), on "
+        "layouts drawn from: ligand before/between/after one or two protein chains, own/protein/blank chain ID, one or two copies, a second ligand without "
+        "MOL2 file, waters before/after/inside the ligand records, shuffled HETATM order, placeholder or matching residue name, four MOL2 spellings, eight "
+        "hand-built charged/aromatic ligands + random organics; expected values from the input (MOL2-derived parameters by name once per copy, declared "
+        "formal charge, rows outside the ligand identical to the run without --ligand); distinct by (PDB, MOL2, options, entry). "
         "Radius-table cases: assign_radii / assign_parameters with every ordered pair of (zap9, bondi, a user table) as (primary, secondary) on three "
         "ligands (carboxylate with O.co2; phosphate + Br; N/S/halogen heterocycle), alone, after a default call, and as [A, B, A]; after every call the "
         "module tables must equal their copies taken at import, the result must equal the same call from a fresh state and the rule; distinct by "
@@ -2007,6 +2334,12 @@ def run(ctx):
     complexes = corpus_complexes + build_complexes(rng, ctx.thorough)
     for cx in complexes:
         oracle_complex(ctx, d, cx)
+    # --ligand under the other options / entry points and in the other legal layouts (class audit 2/3)
+    lattice = fixed_lattice_cases() + [gen_lattice_case(rng, k) for k in range(400 if ctx.thorough else 60)]
+    for lc in lattice:
+        oracle_lattice(ctx, d, lc)
+    for lc in lattice[:2]:
+        ctx.sample({"lattice": lc["layout"], "options": lc["opts"] + lc["files"], "entry": lc["entry"], "observed": lc.get("observed")})
 
     # ---------------- samples / trusted base --------------------------------
     for c in cases:
@@ -2068,6 +2401,15 @@ def replay(ctx, data):
         oracle_transfer(ctx, case["transfer"], out)
         after = len(ctx.failures) + sum(ctx.known_hits.values())
         print("replay:", "FAILS" if after > before else "passes", "| loop output (id=parameters ... | missing ids):", out)
+        return 1 if after > before else 0
+    if "lattice" in case:
+        d = ctx.scratch_dir()
+        before = len(ctx.failures) + sum(ctx.known_hits.values())
+        lc = dict(case["lattice"])
+        oracle_lattice(ctx, d, lc)
+        after = len(ctx.failures) + sum(ctx.known_hits.values())
+        print("replay:", "FAILS" if after > before else "passes", "|", lc.get("observed"), "| options", lc["opts"], "entry", lc["entry"])
+        ctx.cleanup()
         return 1 if after > before else 0
     if "radii_history" in case:
         pristine = take_pristine()
